@@ -709,6 +709,14 @@ func (b *BaseStore) Sync(ctx context.Context, heads []ipfslog.Entry) error {
 			h.SetRefs([]cid.Cid{})
 		}
 
+		// a head written for another log is not this store's business: the replicator refuses
+		// it once fetched, but by then it has moved the replication status, and its ancestry
+		// has been asked for
+		if h.GetLogID() != b.OpLog().GetID() {
+			b.Logger().Debug("warning: Given input entry belongs to another log and was discarded.")
+			continue
+		}
+
 		identityProvider := b.Identity().Provider
 		if identityProvider == nil {
 			return fmt.Errorf("identity-provider is required, cannot verify entry")
